@@ -267,6 +267,15 @@ fn walk_inner(xot: &Xot, live: &[Node], check_text_adjacency: bool) -> Option<Br
                 }
             }
         }
+        // the child list read backwards is the same list
+        {
+            let mut back = snap::bounded(xot.reverse_children(*n), bound).unwrap_or_else(|v| v);
+            back.reverse();
+            if back != ord {
+                let a: Vec<String> = back.iter().map(|c| describe(xot, *c)).collect();
+                return broken("I1-links-consistent", format!("reverse_children() of {}, reversed, = {:?}: not its ordinary children", describe(xot, *n), a));
+            }
+        }
         // first / last child
         if xot.first_child(*n) != ord.first().copied() {
             return broken("I1-links-consistent", format!("first_child of {} is not the first ordinary child", describe(xot, *n)));
